@@ -36,7 +36,11 @@ class Package:
         self.name, self.root, self.errors, self.tmp = name, root, errors, tmp
 
     def module(self, rel):
-        return importlib.import_module(f"{self.name}.{rel}")
+        try:
+            return importlib.import_module(f"{self.name}.{rel}")
+        except Exception as e:  # noqa
+            from .engine_b import Refuted
+            raise Refuted(f"the generated module {rel} does not import: {type(e).__name__}: {e}")
 
     def text(self, rel):
         return (self.root / rel).read_text(encoding="utf-8")
